@@ -33,6 +33,12 @@ def val(plate, mjd, hdu, fib, pix):
 def tree_case(draw):
     nplates = draw(st.sampled_from([2, 3, 1, 4]))
     plates = draw(st.lists(st.one_of(st.integers(266, 9999), st.integers(266, 9999), st.integers(10000, 15999), st.integers(65536, 70000)), min_size=nplates, max_size=nplates, unique=True))
+    if nplates >= 2 and draw(st.integers(0, 3)) == 0:
+        # two plates of which one number ends in the digits of the other (266 and 1266, 10266): separate plates
+        base_p = draw(st.integers(266, 999))
+        plates[0], plates[1] = base_p, base_p + draw(st.sampled_from([1000, 10000, 2000]))
+        plates = list(dict.fromkeys(plates))
+        nplates = len(plates)
     # 'all-fibres' (fiber=None) is implemented below but not sampled: number_of_fibers() cannot work for BOSS-era plates on NumPy 2
     # (assigns a 1-element array to a scalar slot); the mode is not a (plate, MJD, fibre) request vector -> observation O9 in DESIGN.md
     conv = draw(st.sampled_from(['vectors', 'vectors', 'vectors', 'scalar-plate', 'scalar-all', 'mjd-omitted']))
@@ -61,7 +67,7 @@ def tree_case(draw):
             g = draw(st.integers(0, len(obs) - 1))
             req.append([g, draw(st.integers(1, obs[g]['nf']))])
     return dict(obs=obs, conv=conv, req=req, config=draw(st.sampled_from(['env', 'env', 'path', 'path-keywords', 'env-run2d-keyword'])), photo=draw(st.booleans()),
-                run2d=draw(st.sampled_from([RUN2D, RUN2D, 'trunk', '26', 'DR12x', 'master'])))
+                run2d=draw(st.sampled_from([RUN2D, RUN2D, 'trunk', '26', 'DR12x', 'master'])), plug_fiberid=draw(st.sampled_from(['rows', 'rows', 'unplugged', 'reversed'])))
 
 
 def write_tree(top, case):
@@ -88,6 +94,10 @@ def write_tree(top, case):
         pm = np.zeros(nf, dtype=[('FIBERID', 'i4'), ('PLATE', 'i4'), ('MJD', 'i4'), ('RA', 'f8'), ('MAG', 'f4', (5,))])
         pm['MAG'] = (val(plate, mjd, 5, np.arange(nf) + 1, 0)[:, None] % 100) + np.arange(5)[None, :]
         pm['FIBERID'] = np.arange(nf) + 1
+        if case.get('plug_fiberid') == 'unplugged':
+            pm['FIBERID'][::3] = -1          # fibres that were not plugged; rows are still addressed by position
+        elif case.get('plug_fiberid') == 'reversed':
+            pm['FIBERID'] = pm['FIBERID'][::-1].copy()
         pm['PLATE'] = plate
         pm['MJD'] = mjd
         pm['RA'] = val(plate, mjd, 5, np.arange(nf) + 1, 0)
@@ -185,7 +195,13 @@ def tree_body(case):
             check(bool(np.all(np.abs(np.asarray(r['loglam'][i], dtype='f8') - exp) <= 1e-12)), 'readspec:loglam-not-coeff0+coeff1*pixel',
                   lambda: dict(row=i, request=[plate, mjd, f], got=np.asarray(r['loglam'][i])[:3].tolist(), want=exp[:3].tolist()))
             pmrow = (int(r['plugmap']['FIBERID'][i]), int(r['plugmap']['PLATE'][i]), int(r['plugmap']['MJD'][i]))
-            check(pmrow == (f, plate, mjd) and float(r['plugmap']['RA'][i]) == val(plate, mjd, 5, f, 0), 'readspec:plugmap-row-is-not-request', lambda: dict(row=i, got=pmrow, want=(f, plate, mjd)))
+            # what the FIBERID column of row fibre-1 holds in this tree (the row is addressed by position, whatever the column says)
+            fid = f
+            if case.get('plug_fiberid') == 'unplugged' and (f - 1) % 3 == 0:
+                fid = -1
+            elif case.get('plug_fiberid') == 'reversed':
+                fid = o['nf'] - f + 1
+            check(pmrow == (fid, plate, mjd) and float(r['plugmap']['RA'][i]) == val(plate, mjd, 5, f, 0), 'readspec:plugmap-row-is-not-request', lambda: dict(row=i, got=pmrow, want=(fid, plate, mjd)))
             zrow = (int(r['zans']['FIBERID'][i]), int(r['zans']['PLATE'][i]), int(r['zans']['MJD'][i]))
             check(zrow == (f, plate, mjd) and float(r['zans']['Z'][i]) == val(plate, mjd, 7, f, 0), 'readspec:zans-row-is-not-request', lambda: dict(row=i, got=zrow, want=(f, plate, mjd)))
             th = np.asarray(r['zans']['THETA'])
